@@ -144,4 +144,30 @@ CLAIMED["C18"] = {
     "note": BASE_NOTE + "Termination of the real code is observed under a call budget proportional to the content length.",
     "technique": "Coq proof (well-founded measure = remaining input, fuel sufficiency) + differential correspondence with deterministic step budget",
 }
+CLAIMED["C16"] = {
+    "text": "PARTIAL. Theorems (closed, parametric in the file system, a lawful codec and the parser): an existing path is read as its decoded "
+            "bytes, anything else as content, so read(path) = read(decoded content); write(path) produces bytes that decode to the in-memory "
+            "output; disk round trip = memory round trip. The codec tables, BOMs, newline translation and path resolution are not modelled: "
+            "they are exercised on a real temporary directory for 3 families x text/binary x utf-8/latin-1/cp1252/utf-16 with non-ASCII "
+            "contents, with open() wrapped to observe mode and encoding.",
+    "note": BASE_NOTE + "No executable model entry: the decision is the theorem on the adapter logic plus the direct oracle on the implementation.",
+    "technique": "Coq proof (adapter decision logic, codec as lawful section parameter) + direct path-vs-memory oracle on a real temp directory",
+}
+CLAIMED["C17"] = {
+    "text": "Theorems (closed): on the adapter/driver machine (loop inside `with`, __exit__ closes what __enter__ opened, nothing caught), for "
+            "EVERY list of element behaviours and fault position: the caller gets the first failing element's exception, the destination "
+            "holds exactly the output of the elements before it, every framework-opened handle is closed, a caller buffer stays open at the "
+            "end of the data; both structural facts are shown necessary (refuted variants). Tied to the code by a complete fault enumeration "
+            "(n<=8 x every k x read/write x 3 families x path/buffer x text/binary x 3 exception types) with open()/StringIO wrapped.",
+    "note": BASE_NOTE + "Descriptor-level release by the OS is not exhibited (Python-level closed flags are).",
+    "technique": "Coq proof (induction over behaviour lists on a handle/exception state machine) + exhaustive fault-injection correspondence",
+}
+CLAIMED["C20"] = {
+    "text": "PARTIAL. Theorems (closed, frame abstracted to named columns of cells): the user-defined properties are exactly the class's property "
+            "names minus the framework's, sorted; with >= 1 register of the type and >= 1 property there is one row per register of the type in "
+            "file order with that register's property values; otherwise the view is empty. Tied to _as_df/custom_properties over generated "
+            "types and files with nulls canonicalised; editing the real frame is observed not to change the registers.",
+    "note": BASE_NOTE + "pandas dtype inference / null representation are observed after canonicalisation, not modelled.",
+    "technique": "Coq proof (filter/sort/map characterisation) + differential correspondence with null canonicalisation",
+}
 NOT_APPLICABLE = {}
